@@ -679,18 +679,61 @@ def extract() -> Dict:
     mod_funcs = {n.name: n for n in mod.body if isinstance(n, ast.FunctionDef) and binds.get(n.name) == 1}
     literals_here = _module_literals(mod)
     direct = {name: bool(_flag_writes(fn, literals_here)) for name, fn in methods.items()}
+
+    # table-driven dispatch: `getattr(self, <not a constant>)` may name any method listed (as a string
+    # constant) in a class-level literal table that the method itself or — for a helper that receives
+    # the table as an argument — its caller refers to; with no table in sight: any listed method.
+    class_tables: Dict[str, set] = {}
+    for st in cls.body:
+        tgt = None
+        if isinstance(st, ast.Assign) and len(st.targets) == 1 and isinstance(st.targets[0], ast.Name):
+            tgt, val = st.targets[0].id, st.value
+        elif isinstance(st, ast.AnnAssign) and isinstance(st.target, ast.Name) and st.value is not None:
+            tgt, val = st.target.id, st.value
+        if tgt is None or not isinstance(val, (ast.Dict, ast.List, ast.Tuple, ast.Set)):
+            continue
+        names = {n.value for n in ast.walk(val) if isinstance(n, ast.Constant) and isinstance(n.value, str) and n.value in methods}
+        if names:
+            class_tables[tgt] = names
+    all_listed = set().union(*class_tables.values()) if class_tables else set()
+
+    def tables_in(fn):
+        return frozenset(
+            n.attr for n in ast.walk(fn)
+            if isinstance(n, ast.Attribute) and n.attr in class_tables and isinstance(n.value, ast.Name)
+            and n.value.id in ("self", "cls", cls.name)
+        )
+
+    def dyn_getattr(fn) -> bool:
+        for n in ast.walk(fn):
+            if (isinstance(n, ast.Call) and isinstance(n.func, ast.Name) and n.func.id == "getattr" and len(n.args) >= 2
+                    and isinstance(n.args[0], ast.Name) and n.args[0].id == "self"
+                    and not (isinstance(n.args[1], ast.Constant) and isinstance(n.args[1].value, str))):
+                return True
+        return False
+
+    def const_getattr(fn):
+        return {n.args[1].value for n in ast.walk(fn)
+                if isinstance(n, ast.Call) and isinstance(n.func, ast.Name) and n.func.id == "getattr" and len(n.args) >= 2
+                and isinstance(n.args[1], ast.Constant) and isinstance(n.args[1].value, str) and n.args[1].value in methods}
+
     reach: Dict[str, bool] = {}
     for name in methods:
-        seen, todo, hit = set(), [name], False
+        seen, todo, hit = set(), [(name, frozenset())], False
         while todo:
-            m = todo.pop()
-            if m in seen:
+            m, inherited = todo.pop()
+            if (m, inherited) in seen:
                 continue
-            seen.add(m)
+            seen.add((m, inherited))
             if direct[m]:
                 hit = True
                 break
-            todo.extend(callees(methods[m]))
+            fn_m = methods[m]
+            tabs = tables_in(fn_m) or inherited
+            refs = callees(fn_m) | const_getattr(fn_m)
+            if dyn_getattr(fn_m):
+                refs |= set().union(*(class_tables[t] for t in tabs)) if tabs else all_listed
+            todo.extend((r, tabs) for r in refs)
         reach[name] = hit
 
     routes = []
